@@ -289,6 +289,16 @@ def oracle(ctx, hints, effort):
                 if r:
                     findings.setdefault("closed-form:near-ice-density", Finding("closed-form:near-ice-density", f"a layer of density {sc2['density'][j]} "
                                         f"kg/m3: Tb differs from the incoherent closed form by {r[0]:.3g} K", {"kind": "stack", "scene": sc2}, r[0], r[1]))
+            if it == 7 or (effort != "routine" and it % 10 == 7):
+                # the same stack handed over as pandas Series with reversed integer labels
+                if len(sc["thickness"]) >= 2:
+                    sc3 = dict(sc, series_labels="reversed")
+                    evals += 1
+                    r = check_closed_form(sc3)
+                    if r:
+                        findings.setdefault("closed-form:series-arguments", Finding("closed-form:series-arguments", "per-layer arguments given as pandas Series "
+                                            f"with reversed integer labels: Tb differs from the incoherent closed form by {r[0]:.3g} K",
+                                            {"kind": "stack", "scene": sc3}, r[0], r[1]))
             if it in (5, 6) or (effort != "routine" and it % 10 == 5):
                 evals += 1
                 k_ = int(rng.integers(0, len(sc["thickness"])))
